@@ -898,6 +898,27 @@ def run(s):
     from props import C01
     C01.run(core.SubSession(s, lambda n: n.replace("C01.", "C04.nonshear_contract."), lambda n: ".prefactors" in n or ".mode_gamma[" in n or "value_isothermal" in n
                             or n.endswith(".chain")))
+    # "every requested component receives a value": the request of a calculation is EVERY component the static table lists -- also one whose static value is zero at every
+    # volume (its phonon part is not zero when the axes strain differently)
+    def request_is_every_column():
+        from contracts.nonshear_env import duck_of
+        from cij.util import c_
+        cal = importlib.import_module("cij.core.calculator")
+        fm = importlib.import_module("cij.core.full_modulus")
+        for cols in ([(1, 1), (2, 2), (3, 3), (1, 2), (1, 3), (2, 3), (4, 4), (5, 5), (6, 6), (1, 4), (4, 5)], [(4, 5), (1, 1), (3, 6)], [(k, l) for k in range(1, 7) for l in range(k, 7)]):
+            keys = [c_(i, j) for i, j in cols]
+            vols = [types.SimpleNamespace(volume=600.0 - 20 * v, static_elastic_modulus={k: (0.0 if (k.voigt in ((1, 4), (4, 5), (3, 6)) or n_ % 4 == 3) else 100.0 + n_ + v) for n_, k in enumerate(keys)})
+                    for v in range(3)]
+            me = duck_of(cal.Calculator, elast_data=types.SimpleNamespace(volumes=vols))
+            got = list(me.modulus_keys)
+            if got != keys:
+                return core.refuted("callsite", "static table with the columns %s (some of them zero at every volume): Calculator.modulus_keys = %s" % (["c%d%d" % k.voigt for k in keys], ["c%d%d" % k.voigt for k in got]),
+                                    witness_id="request-keys", replay={"reproduced": True, "columns": ["c%d%d" % k.voigt for k in keys], "modulus_keys": ["c%d%d" % k.voigt for k in got]})
+            full = duck_of(fm.FullThermalElasticModulus, calculator=me)
+            if list(full.modulus_keys) != keys:
+                return core.refuted("callsite", "FullThermalElasticModulus.modulus_keys differs from the calculator's list", witness_id="request-keys-fm", replay={"reproduced": True})
+        return core.proved("callsite", "Calculator.modulus_keys and FullThermalElasticModulus.modulus_keys are the columns of the static table, in order, zero-valued ones included")
+    s.oblige("C04.request_is_every_tabulated_component", request_is_every_column, ["calculator.Calculator.modulus_keys", "full_modulus.FullThermalElasticModulus.modulus_keys"], kind="finite")
     s.min_obligations = 11
 
 
